@@ -58,7 +58,7 @@ def make_grid(name, faces):
     if CTOR == 'NL' and nl_able(faces):
         fs = [np.asarray(f, dtype=float) for f in faces]
         return getattr(pf, name)(*[len(f) - 1 for f in fs], *[float(f[-1]) for f in fs])
-    return getattr(pf, name)(*[np.array(f, dtype=float) for f in faces])
+    return getattr(pf, name)(*[_as_int(np.array(f, dtype=float)) for f in faces])
 
 
 def dims_of(faces):
@@ -89,13 +89,23 @@ def interior(d, vec):
 LAYOUT = 'C'     # memory layout of the arrays handed to pyfvtool for the case being evaluated (set by the runner per case)
 
 
+DTYPE = 'float'  # 'int': arrays whose values are all small whole numbers are handed over as int64 (np.arange-style user input;
+                 # |values| <= 1000 so that integer arithmetic inside the library cannot overflow)
+
+
+def _as_int(a):
+    if DTYPE == 'int' and a.size and np.all(np.isfinite(a)) and np.all(a == np.round(a)) and np.abs(a).max() <= 1000:
+        return a.astype(np.int64)
+    return a
+
+
 def lay(a):
     """same numbers, requested memory layout: C-contiguous, Fortran-ordered, or a non-contiguous strided view"""
-    a = np.array(a, dtype=float)
+    a = _as_int(np.array(a, dtype=float))
     if LAYOUT == 'F' and a.ndim >= 2:
         return np.asfortranarray(a)
     if LAYOUT == 'strided' and a.ndim >= 1 and a.size:
-        big = np.zeros(a.shape[:-1] + (2 * a.shape[-1],))
+        big = np.zeros(a.shape[:-1] + (2 * a.shape[-1],), dtype=a.dtype)
         big[..., ::2] = a
         return big[..., ::2]
     return a
